@@ -30,7 +30,7 @@ func init() {
 			"Transport.Close does not block indefinitely and unblocks pending Read/Write (transport contract)",
 			"logging callbacks (drpcdebug, trace) do not block",
 		},
-		Rules: []Rule{
+		Rules: append([]Rule{
 			{ID: "C04.W1", Doc: "no transport I/O or unclassified wait is reachable while holding a lock the cancel path can block on (transitively)", Run: c04w1},
 			{ID: "C04.W2", Doc: "the lock-order graph of blocking acquisitions in the connection packages is acyclic (no two sites take two locks in opposite orders)", Run: c04w2},
 			{ID: "C04.R2", Doc: "SendCancel acquires Stream.mu and Stream.write only through TryLock", Run: c04r2},
@@ -43,7 +43,7 @@ func init() {
 			{ID: "C04.S2", Doc: "packet-buffer wake-ups: a cancelled receiver parked in Get is woken by Close", Alias: "C01.R4"},
 			{ID: "C04.S3", Doc: "cancel sets the state signals under Stream.mu", Alias: "C03.R1"},
 			{ID: "C04.S4", Doc: "exactly one finished token per stream: a stale token would make the watcher of the next stream return before that stream finished, so its cancellation is never delivered", Alias: "C02.R6"},
-		},
+		}, disciplineRules("C04", "drpcstream", "drpcmanager", "drpcconn")...),
 	})
 }
 
